@@ -360,6 +360,7 @@ func (t *Terminfo) TParm(s string, p ...interface{}) string {
 	)
 
 	skip := emit
+	nest := 0
 
 	for {
 
@@ -380,14 +381,22 @@ func (t *Terminfo) TParm(s string, p ...interface{}) string {
 			// XXX Error
 			break
 		}
-		if skip == toEnd {
-			if ch == ';' {
-				skip = emit
-			}
-			continue
-		} else if skip == toElse {
-			if ch == 'e' || ch == ';' {
-				skip = emit
+		if skip == toEnd || skip == toElse {
+			// conditionals nested inside a skipped part are
+			// skipped as a whole
+			switch ch {
+			case '?':
+				nest++
+			case ';':
+				if nest > 0 {
+					nest--
+				} else {
+					skip = emit
+				}
+			case 'e':
+				if nest == 0 && skip == toElse {
+					skip = emit
+				}
 			}
 			continue
 		}
